@@ -174,4 +174,69 @@ def install():
         return r
 
     tensor_allocation.allocate = alloc
+
+    # (C08) every call of weight_compressor.encode_weight_and_scale_tensor: when what it returns was handed out before (it
+    # came from the process-wide CompressedWeightCache), compare it per (core, depth) range - weight section bytes and the
+    # scale section bytes the operator will be pointed at - with a fresh encoding of the very same call from an emptied
+    # cache; the cache is restored afterwards.  One comparison per distinct (returned tensor, operator, tensors, slices).
+    from ethosu.vela import weight_compressor as wcmp
+    orig_enc = wcmp.encode_weight_and_scale_tensor
+    handed_out = {}
+    compared = set()
+
+    def eff(pair):
+        tw, ts = pair
+        out = []
+        for k, v in tw.encoded_ranges.items():
+            if ts is None:
+                sb = bytes(tw.buffer[v.offset: v.offset + v.scale_bytes])
+            else:
+                y = ts.encoded_ranges.get(k)
+                sb = bytes(ts.buffer[y.offset: y.offset + y.scale_bytes]) if y is not None else None
+            out.append(((int(k[0]), int(k[1])), sb,
+                        bytes(tw.buffer[v.offset + v.weight_offset: v.offset + v.weight_offset + v.weight_bytes])))
+        return out
+
+    def enc(arch, op, weight_tens, scale_tens, kernel, block_config, depth_offsets):
+        r = orig_enc(arch, op, weight_tens, scale_tens, kernel, block_config, depth_offsets)
+        try:
+            hit = r[0] is not None and id(r[0]) in handed_out
+            if r[0] is not None:
+                handed_out[id(r[0])] = r[0]
+            rec = {"op": op.name, "op_type": str(op.type), "hit": bool(hit)}
+            key = (id(r[0]), id(op), id(weight_tens), id(scale_tens), str(list(depth_offsets)), int(block_config.ofm_block.depth))
+            if hit and key not in compared:
+                compared.add(key)
+                cache = wcmp.CompressedWeightCache.cache
+                saved = dict(cache)
+                cache.clear()
+                try:
+                    try:
+                        f = orig_enc(arch, op, weight_tens, scale_tens, kernel, block_config, depth_offsets)
+                    except Exception as ex:
+                        f = None
+                        rec["fresh_error"] = repr(ex)[:300]
+                finally:
+                    cache.clear()
+                    cache.update(saved)
+                a = eff(r)
+                rec.update({
+                    "compared": True, "weights_shape": [int(x) for x in weight_tens.values.shape],
+                    "kernel": [int(kernel.height), int(kernel.width)], "depth_offsets": [int(x) for x in depth_offsets],
+                    "block_depth": int(block_config.ofm_block.depth), "ncores": int(arch.ncores),
+                    "accelerator": arch.accelerator_config.value, "ifm_bits": int(op.inputs[0].dtype.size_in_bits()),
+                    "scale_tensor_returned": r[1] is not None, "returned_weight_bytes": [len(x[2]) for x in a]})
+                if f is not None:
+                    b = eff(f)
+                    rec.update({
+                        "keys_equal": [x[0] for x in a] == [x[0] for x in b],
+                        "weights_equal": [x[2] for x in a] == [x[2] for x in b],
+                        "scales_equal": [x[1] for x in a] == [x[1] for x in b],
+                        "fresh_weight_bytes": [len(x[2]) for x in b]})
+            cap.weights.append(rec)
+        except Exception as ex:  # capture is best effort, never disturbs the compilation
+            cap.weights.append({"error": repr(ex)[:300]})
+        return r
+
+    wcmp.encode_weight_and_scale_tensor = enc
     return cap
